@@ -14,7 +14,7 @@ BUDGET = {'quick': 500, 'thorough': 40000}
 TIME = {'quick': 100, 'thorough': 800}
 RULE = ('histories: action kind (snapshot/log/metric/span) x fire_count text x fire_period text x window x up to 40 '
         'hits with scripted clock (boundary spacings: exactly period, +-1 ns, backwards steps) and per-hit condition '
-        '(true/false/raising) and, in 30% of the histories, unrelated configuration changes (register/unregister of another tracepoint through the real TracepointConfigService) between hits, driven through the real TriggerHandler.trace_call; several tracepoints with different limits on one line (merged into one trigger or separate triggers) judged per tracepoint; schedules: all 20 interleavings of '
+        '(true/false/raising) and, in 30% of the histories, unrelated configuration changes (register/unregister of another tracepoint through the real TracepointConfigService) between hits, driven through the real TriggerHandler.trace_call; one tracepoint yielding sibling actions (snapshot+metrics+span, metric processor failing part-way: the hit still counts) judged per action; several tracepoints with different limits on one line (merged into one trigger or separate triggers) judged per tracepoint; schedules: all 20 interleavings of '
         '2 threads x (check, process, record) forced with gates inside the condition and a watch. A case is '
         'non-trivial when at least one hit is rejected by a limit and at least one collects (or, for schedules, when '
         'the threads overlap). Distinct = distinct canonical JSON of the case.')
@@ -131,6 +131,15 @@ def gen(rng, tier):
                 cfgs.append({'fire_count': rng.choice(['-1', '1', '2']), 'fire_period': rng.choice(['0', '100', '1000'])})
             yield {'kind': 'multi', 'cfgs': cfgs, 'hits': [h for h in a['hits'] if 'op' not in h],
                    'merged': rng.random() < 0.5}
+        elif k % 12 == 9:
+            # ONE tracepoint that yields several actions (snapshot + metrics + span): each action has its own budget;
+            # a processing step that fails part-way still counts as that hit's collection
+            a = gen_history(rng, 'snapshot')
+            cfg = {kk: v for kk, v in a['cfg'].items() if kk in ('fire_count', 'fire_period')}
+            hits = [h for h in a['hits'] if 'op' not in h]
+            yield {'kind': 'siblings', 'cfg': cfg, 'hits': hits, 'span': rng.random() < 0.6,
+                   'metric_fail_at': sorted(rng.sample(range(0, 2 * len(hits) + 2), rng.randint(0, 3))),
+                   'bad_metric': rng.random() < 0.4}
         elif tier == 'thorough' and k % 12 == 6:
             n = rng.choice([3, 4])
             if rng.random() < 0.4:          # serial blocks in a random thread order
@@ -359,11 +368,60 @@ def run_multi(case):
         rig.close()
 
 
+def run_siblings(case):
+    from deep.api.tracepoint.trigger import build_trigger
+    from deep.api.tracepoint.tracepoint_config import MetricDefinition
+    import rig as rigmod
+    fail_at = set(case.get('metric_fail_at', []))
+    r = Rig(span=case.get('span', False))
+    try:
+        metric = rigmod.RecMetric(fail=lambda op, n: n in fail_at)
+        r.config.plugins = list(r.config.plugins) + [metric]
+        args = {'condition': 'cond()', 'frame_type': 'no_frame'}
+        args.update(case['cfg'])
+        if case.get('span'):
+            args['span'] = 'line'
+        m2 = MetricDefinition('m2', 'GAUGE')
+        if case.get('bad_metric'):
+            # a malformed definition: processing the action fails AFTER the first metric went out
+            m2 = MetricDefinition('m2', 'GAUGE', labels=[('a', 'b')])
+        trig = build_trigger('tp0', 'host.py', 7, args, [], [MetricDefinition('m1', 'COUNTER'), m2])
+        r.install_via_service([trig])
+        state = {'cond': 'true'}
+
+        def cond():
+            if state['cond'] == 'raise':
+                raise ValueError('condition fails')
+            return state['cond'] == 'true'
+        kinds = ['snapshot', 'metric'] + (['span'] if case.get('span') else [])
+        collected = {k: [] for k in kinds}
+        for h in case['hits']:
+            state['cond'] = h['cond']
+            r.clock = h['ts']
+            before = {'snapshot': len(r.push.pushed), 'metric': len(metric.attempts),
+                      'span': len([e for e in r.span.events if e[0] == 'open']) if r.span else 0}
+            try:
+                r.handler.trace_call(MockFrame('/app/host.py', 'fn', 7, {'cond': cond}), 'line', None)
+                r.handler.trace_call(MockFrame('/app/host.py', 'fn', 8, {'cond': cond}), 'line', None)
+            except BaseException as e:  # noqa: B902
+                return {'raised': f'{type(e).__name__}: {e}', 'collected': collected}
+            after = {'snapshot': len(r.push.pushed), 'metric': len(metric.attempts),
+                     'span': len([e for e in r.span.events if e[0] == 'open']) if r.span else 0}
+            for k in kinds:
+                if after[k] > before[k]:
+                    collected[k].append(h['ts'])
+        return {'collected': collected}
+    finally:
+        r.close()
+
+
 def run_impl(case):
     if case['kind'] == 'schedule':
         return run_schedule(case)
     if case['kind'] == 'multi':
         return run_multi(case)
+    if case['kind'] == 'siblings':
+        return run_siblings(case)
     return run_history(case)
 
 
@@ -383,6 +441,15 @@ def oracle(case, obs):
     if case.get('no_oracle'):
         return []
     v = []
+    if case['kind'] == 'siblings':
+        if 'raised' in obs:
+            return ['trace_call raised into the host: ' + obs['raised']]
+        exp = reference({'cfg': case['cfg'], 'hits': case['hits']})
+        for k, got in obs['collected'].items():
+            if got != exp:
+                v.append(f'{k} action of the tracepoint ({case["cfg"]}, metric processor failing at attempts '
+                         f'{case.get("metric_fail_at")}): collected {got[:8]}.., its own limits and the conditions permit exactly {exp[:8]}..')
+        return v
     if case['kind'] == 'multi':
         if 'raised' in obs:
             return ['trace_call raised into the host: ' + obs['raised']]
@@ -438,7 +505,7 @@ def oracle(case, obs):
 
 
 def known_finding(case, obs):
-    if case['kind'] == 'multi':
+    if case['kind'] in ('multi', 'siblings'):
         return None
     if case['kind'] == 'schedule' and overlapping(case):
         return 'C04/2-threads-check-check-record-record'
@@ -448,6 +515,9 @@ def known_finding(case, obs):
 
 
 def model_request(case, obs):
+    if case['kind'] == 'siblings':
+        return {'op': 'runN', 'cfgs': [case['cfg']] * len(obs.get('collected', {'a': 0})),
+                'hits': [{'ts': h['ts'], 'cond': h['cond'] == 'true'} for h in case['hits']]}
     if case['kind'] == 'multi':
         return {'op': 'runN', 'cfgs': case['cfgs'],
                 'hits': [{'ts': h['ts'], 'cond': h['cond'] == 'true'} for h in case['hits']]}
@@ -467,12 +537,20 @@ def compare(case, obs, resp):
         return ['model error: ' + resp['error']]
     if 'raised' in obs:
         return ['implementation raised, model does not: ' + obs['raised']]
+    if case['kind'] == 'siblings':
+        got = [obs['collected'][k] for k in sorted(obs['collected'])]
+        if sorted(map(tuple, resp['collected'])) != sorted(map(tuple, got)):
+            return [f'collected per action: model {resp["collected"]} vs implementation {obs["collected"]}']
+        return []
     if resp['collected'] != obs['collected']:
         return [f'collected: model {resp["collected"]} vs implementation {obs["collected"]}']
     return []
 
 
 def label(case, obs):
+    if case['kind'] == 'siblings':
+        return 'siblings/%s/%s%s' % ('span' if case.get('span') else 'nospan', 'fault' if case.get('metric_fail_at') else 'nofault',
+                                     '/badmetric' if case.get('bad_metric') else '')
     if case['kind'] == 'multi':
         return 'multi/%d/%s' % (len(case['cfgs']), 'merged' if case.get('merged') else 'separate')
     if case['kind'] == 'schedule':
@@ -484,6 +562,9 @@ def label(case, obs):
 
 
 def nontrivial(case, obs):
+    if case['kind'] == 'siblings':
+        c = obs.get('collected', {}).get('snapshot', [])
+        return 0 < len(c) < len(case['hits'])
     if case['kind'] == 'multi':
         c = obs.get('collected', [])
         return len(c) > 1 and any(x != c[0] for x in c[1:])
@@ -494,7 +575,7 @@ def nontrivial(case, obs):
 
 
 def shrink(case):
-    if case['kind'] == 'multi':
+    if case['kind'] in ('multi', 'siblings'):
         hs = case['hits']
         for i in range(len(hs)):
             c = dict(case)
